@@ -16,8 +16,12 @@ AXIOM_ALLOW = set()
 
 
 def sh(cmd, cwd=None, timeout=None, env=None):
-    p = subprocess.run(cmd, cwd=cwd, shell=isinstance(cmd, str), stdout=subprocess.PIPE, stderr=subprocess.STDOUT,
-                       timeout=timeout, env=env or ENV, text=True)
+    try:
+        p = subprocess.run(cmd, cwd=cwd, shell=isinstance(cmd, str), stdout=subprocess.PIPE, stderr=subprocess.STDOUT,
+                           timeout=timeout, env=env or ENV, text=True)
+    except subprocess.TimeoutExpired as e:      # never hang or crash the check: a command that does not finish is a failed command
+        o = e.stdout if isinstance(e.stdout, str) else (e.stdout or b"").decode("utf-8", "replace")
+        return 124, o + "\nTIMEOUT after %s s: %s" % (timeout, cmd if isinstance(cmd, str) else " ".join(map(str, cmd))[:300])
     return p.returncode, p.stdout
 
 
@@ -393,6 +397,11 @@ def decide(pid, tier, seed, replay=None):
                             if c & 3: mism.append((cdir, i, c, m, prof))
                             if c & 4: known_hits += 1
             if not ok:
+                hang = re.search(r"(?m)^HANG (.*)$", out or "")
+                if hang:        # the implementation did not return on this case (harness watchdog): the case is the replay
+                    path = write_replay(pid, tier, seed, 90 + len(violations), {"kind": "impl-hangs", "spec": hang.group(1).strip(), "profile": prof,
+                        "explanation": "the implementation did not return from this case within the watchdog limit (VERIF_CASE_TIMEOUT, default 600 s): non-termination; every model function is total"})
+                    violations.append(("impl-hangs", "the implementation does not return on: %s" % hang.group(1).strip()[:300], path, True)); continue
                 violations.append(("harness-run", "harness failed: " + out[-1500:], None, False)); continue
             bad, nt, errors, meta = evaluate(casedir, sum((["-Q", d, l] for d, l in extra_q), []))
             evaluations += meta["cases"]; nontrivial += nt
